@@ -5,7 +5,8 @@ import ConcVerif.Proof.RcuFail
 All statements are over `Reachable s`: every accepted event sequence of the model in `Model/Rcu.lean`,
 i.e. any number of threads, any client program built from `lock_read / lock_write / begin / ++ / * /
 push_front / push_back / emplace_* / erase / release / ~rcu_list`, any interleaving of their primitive
-steps, spurious `compare_exchange_weak` failures and throwing element constructors included.  No bound.
+steps, spurious `compare_exchange_weak` failures, throwing element constructors and ALLOCATION FAILURES (the allocator
+throws at the registration of a handle, in `push_* / emplace_*`, in `erase`) included.  No bound.
 
 The model does not *check* the allocation ledger: `nled` / `rled` are ghost fields that `alo / con /
 des / fre` events update unconditionally.  The theorems say that in every reachable state such an event
